@@ -437,7 +437,7 @@ def C13(tier):
         # contract of slice::binary_search); MC_Lookup checks that the model's search outcome satisfies that contract
         dict(engine="tlaps", module="LookupProof", name="TLAPS_LookupProof", deps=["LookupAlg"]),
         dict(module="Lookup", name="MC_Lookup_emit", emit=True,
-             cfg=dict(constants=dict(MaxLen=q(tier, 4, 5), Dom=4, Emit=True), invariants=["EdgesOK", "EmitInv"])),
+             cfg=dict(constants=dict(MaxLen=q(tier, 5, 6), Dom=5, Emit=True), invariants=["EdgesOK", "EmitInv"])),
     ]
     stages = [
         hist_stage("replay_model", cases_from=["MC_Lookup_emit"]),
